@@ -166,15 +166,13 @@ func TickDrain(d sched.VerifDriver) (panicked bool, ords []int64) {
 func probeSx(impl int64, d sched.VerifDriver) Sx {
 	nodes, ok := d.Probe()
 	if impl == ImplHeap {
-		sort.SliceStable(nodes, func(i, j int) bool {
-			if nodes[i].Deadline == nodes[j].Deadline {
-				return nodes[i].ID > nodes[j].ID
-			}
-			return nodes[i].Deadline < nodes[j].Deadline
-		})
-		for i := range nodes {
-			nodes[i].Level, nodes[i].Slot = 0, 0
+		// array order as it is; the nodes outside the array (level -1) by id
+		n := 0
+		for n < len(nodes) && nodes[n].Level == 0 {
+			n++
 		}
+		out := nodes[n:]
+		sort.SliceStable(out, func(i, j int) bool { return out[i].ID < out[j].ID })
 	}
 	l := []Sx{Bool(ok)}
 	for _, n := range nodes {
